@@ -216,6 +216,7 @@ CHECKS["C20"] = dict(
         dict(name="H20-nobody", pkgs=["./s3api"], entry="s3api.VfNoBodyStream", redirects="spec/redirects_auth.json", reach=["answered", "handler-entered"]),
         dict(name="H20-parsers", pkgs=["./backend"], entry="backend.VfCrashParsers", native=True, reach=["returned"]),
         dict(name="H20-chunk", pkgs=["./s3api/utils"], entry="s3api/utils.VfCrashChunk", redirects="spec/redirects.json", pkgname="utils", native=True, reach=["returned"]),
+        dict(name="H20-signed-header", pkgs=["./s3api/utils"], entry="s3api/utils.VfCrashSignedHeader", redirects="spec/redirects.json", pkgname="utils", native=True, reach=["returned"]),
         dict(name="H20-posix-uploads", pkgs=["./backend/posix"], entry="backend/posix.VfPosixNoCrashUploads", redirects="spec/redirects_fs.json", reach=["returned"],
              key_trace=['"entry point:']),
         dict(name="H20-posix-listings", pkgs=["./backend/posix"], entry="backend/posix.VfPosixNoCrashListings", redirects="spec/redirects_fs.json", reach=["returned"],
